@@ -12,8 +12,22 @@ CHECKS = {
          "torch 2.x / NumPy are trusted as the mirrored definition."),
  "C06": ("exploration", "3/C06", "bounded-exhaustive enumeration of nn configurations against torch.nn.functional and definitional loop nests",
          "torch.nn.functional trusted; definitional references cross-validated against it on every case torch accepts."),
+ "C04": ("model_checking", "3/C04", "explicit-state BFS over build/backward/retain/zero histories on real Parameters in lock-step with a forward-mode gradient ledger",
+         "All histories up to the depth bound; contributions come from dual-number evaluation independent of the engine."),
  "C07": ("model_checking", "3/C07", "explicit-state BFS over context/tensor event histories on the real library in lock-step with a stack-machine model",
          "All histories up to the depth bound over a finite event alphabet; states merged on model + observable library state (audited unmerged in the thorough tier)."),
+ "C08": ("model_checking", "3/C08", "exhaustive enumeration of all {backward,backward,zero_grad,step} histories x hyper-parameter lattice on the real optimizers in lock-step with the transcribed PyTorch rules and torch.optim",
+         "torch.optim is the published rule; one documented point of specification nondeterminism (zero_grad-created gradients) is modelled as a set of admissible successors."),
+ "C12": ("model_checking", "3/C12", "explicit-state BFS over attribute-assignment/registration/mode histories on real Modules in lock-step with a registry model; all Sequentials of <= 3 layers",
+         "Cycles excluded; two registration-order conventions accepted."),
+ "C15": ("exploration", "3/C15", "bounded-exhaustive enumeration of initialiser configurations under a scripted random source that recovers bounds/mean/std exactly",
+         "NumPy's generator distribution is trusted; parameters handed to it and the in-place contract are decided."),
+ "C16": ("exploration", "3/C16", "bounded-exhaustive enumeration of the 2-d geometry lattice; bitwise agreement of variants; adjointness by full operator matrices",
+         "Small-integer data make sums exact; bilinearity extends basis agreement to all x, y."),
+ "C17": ("exploration", "3/C17", "program-shape x size ladder executed on the real engine under the default recursion limit with invocation counting and weak-reference liveness",
+         "Depths up to 5 000 (quick) / 50 000 (thorough)."),
+ "C18": ("exploration", "3/C18", "exhaustive enumeration of dataset lengths x fractions x every shuffle permutation (scripted) x batch sizes x transforms x label sequences against an arithmetic model",
+         "All permutations for n <= 4/5; real seeded shuffles beyond."),
 }
 def main():
     checks = []
